@@ -26,8 +26,13 @@ func runFocusedHTTP(t *testing.T, id, rule string, o HistOpts, quick, thorough i
 	stats.Check(t, n, 8080, func(rt *rapid.T) {
 		w, l, sum := RunHistory(rt, st, o)
 		defer w.Close()
-		if f := postRun[id]; f != nil && id != "C09" {
+		if f := postRun[id]; f != nil {
+			if id == "C09" {
+				// the journal is listed through GET /logs and exported through POST /logs/export
+				importsViaHTTP = true
+			}
 			f(rt, w, l)
+			importsViaHTTP = false
 		}
 		st.Add("api_calls", w.APICalls)
 		st.Case("http:"+sum.Key, nontrivial(sum), sampleHistory(l), append(classesOf(sum), "via-http")...)
@@ -163,6 +168,28 @@ func TestC19HTTP(t *testing.T) {
 		defer w.Close()
 		st.Add("api_calls", w.APICalls)
 		st.Case("http:"+sum.Key, sum.Ledgers >= 3 && sum.JoinedLate >= 1 && sum.Commits >= 4, sampleMulti(w), "via-http")
+		st.Add("completed_checks_via_http", 1)
+	})
+}
+
+func TestC09HTTP(t *testing.T) {
+	runFocusedHTTP(t, "C09", "with HASH_LOGS=SYNC the journal listed through GET /logs and the one exported through POST /logs/export are re-chained with the real Log.ComputeHash; every hash as rendered by the API must equal the chain hash of its predecessor; non-trivial = >= 4 commits with a revert and a metadata write; distinct = by operation history",
+		HistOpts{Focus: []string{"C09"}, Features: hashSyncFeatures, Steps: 20, Scripts: true, Reverts: true, Metadata: true, Reads: false, FinalReads: false}, 80, 250,
+		func(s *HistorySummary) bool { return s.Commits >= 4 && s.Reverts >= 1 && s.MetaOps >= 1 })
+}
+
+func TestC16HTTP(t *testing.T) {
+	st := stats.New("C16", "exploration", viaHTTP+multiGen+"; transaction and log ids answered by the API are unique and increase per ledger, consecutive when no write of that ledger failed in between, whatever happens on the other ledgers of the bucket; non-trivial = >= 3 ledgers, >= 6 commits and >= 1 failed write; distinct = by operation histories", assumePgsim)
+	defer st.Write(t)
+	n := stats.N(80, 250)
+	st.Set("requested_checks_via_http", n)
+	stats.Check(t, n, 1616, func(rt *rapid.T) {
+		multiViaHTTP = true
+		defer func() { multiViaHTTP = false }()
+		w, sum := runMulti(rt, st, []string{"C16"}, true)
+		defer w.Close()
+		st.Add("api_calls", w.APICalls)
+		st.Case("http:"+sum.Key, sum.Ledgers >= 3 && sum.Commits >= 6 && sum.Failures >= 1, sampleMulti(w), "via-http")
 		st.Add("completed_checks_via_http", 1)
 	})
 }
